@@ -229,3 +229,42 @@ def valid_utf8(s):
         return True
     except UnicodeEncodeError:
         return False
+
+
+# ----------------------------------------------------------------------------- C07 family
+
+STR_PIECES = ["a", "b", "''", '""', "'", '"', "%", "/", "&", "&&", "\n", "\u00e9", "\U0001F525", "%'", '%"',
+              "%%", "%(", "%)", "(", ")", ",", " ", "&v", "&v.", "%m", "1f", "0A", "+1", " 1", "g", ";", "=",
+              "/*c*/", "%*c;", "%str(", "%let x=", "x", "X"]
+STR_SUFFIX = ["", "", "", "x", "X", "b", "d", "dt", "DT", "n", "t", "T", "q"]
+
+
+def string_family(rng, n):
+    out = []
+    for _ in range(n):
+        k = rng.randint(0, 6)
+        body = "".join(rng.choice(STR_PIECES) for _ in range(k))
+        form = rng.randint(0, 9)
+        if form <= 1:
+            s = "'" + body.replace("'", "''") + "'" + rng.choice(STR_SUFFIX)
+        elif form <= 3:
+            s = '"' + body.replace('"', '""') + '"' + rng.choice(STR_SUFFIX)
+        elif form == 4:
+            s = "%str(" + body + ")"
+        elif form == 5:
+            s = "%nrstr(" + body + ")"
+        elif form == 6:
+            q = rng.choice(["'", '"'])
+            s = q + body + rng.choice(["", q, q + "x"])
+        elif form == 7:
+            s = "%let a=" + rng.choice(["%str(", "%nrstr(", '"', "'"]) + body + rng.choice([")", '"', "'", ""]) + ";"
+        elif form == 8:
+            s = "%m(" + rng.choice(["%str(", '"', "'", ""]) + body + rng.choice([")", '"', "'", ""]) + ")"
+        else:
+            hexd = "".join(rng.choice("0123456789abcdefABCDEF,,") for _ in range(rng.randint(0, 7)))
+            q = rng.choice(["'", '"'])
+            s = q + rng.choice(["", "", " ", "+", "g"]) + hexd + q + rng.choice(["x", "X"])
+        if rng.random() < 0.3:
+            s = rng.choice(["", " ", "a=", "%put ", "x ", '"', "%m("]) + s + rng.choice(["", ";", " ", "b", ")"])
+        out.append(s)
+    return out
